@@ -13,7 +13,7 @@ from ..cfg import cfg_of
 from ..model import own_nodes
 from ..values import pattern, match, match_any, find, contains, show, subterms
 from ..domains import polarity, POS, NEG, ZERO
-from .base import obligation, src, callee_name, if_branches, split_if
+from .base import obligation, src, callee_name, if_branches, split_if, bind_args
 from .C04 import pattern_term, returns, enclosing_loop, _inside
 
 BB = 'elfi.methods.inference.romc:NDimBoundingBox'
@@ -1041,3 +1041,159 @@ def c19_j(ctx):
               'prob.local_surrogates[jj] | prob.surrogate | prob.objective',
               'a distance function of another problem (or another region index) is paired with '
               'the region', fn=dp, node=oa[0])
+
+
+@obligation('C19-k', 'T8', 'the threshold and the search parameters the user gives to build_region '
+            'are the ones the line search runs with: each travels under its own name from the '
+            'keyword arguments through the region constructor to the line-search call, which '
+            'searches the problem\'s own distance function from a copy of its optimum',
+            floor=12,
+            necessary='the region is the set the line search measured: with another threshold, '
+                      'step or function the limits bound a different set, and samples inside '
+                      'the box no longer have distance below the region threshold')
+def c19_k(ctx):
+    rc = ctx.cls(ROMC + ':RegionConstructor')
+    init = ctx.own_method(rc, '__init__')
+    bd = ctx.own_method(rc, 'build')
+    ls = ctx.fn(ROMC + ':line_search')
+    exi, exb = ctx.ex(init), ctx.ex(bd)
+    # (b) constructor: field <- parameter
+    field_of = {}
+    for s in own_nodes(init.node):
+        if isinstance(s, ast.Assign) and len(s.targets) == 1:
+            t, v = exi.term(s.targets[0]), exi.term(s.value)
+            if v[0] == 'param' and t[0] == 'attr' and t[1] == ('param', 'self'):
+                field_of.setdefault(v[1], t[2])
+    ip = [p for p in init.params[1:]]
+    for p in ip:
+        ctx.check(p in field_of, init, 'constructor keeps ' + p, 'self.{} = {}'.format(
+            field_of.get(p), p), 'the region constructor does not keep its argument `{}`'.format(p),
+            fn=init, node=init.node)
+    if len(ip) < 7:
+        ctx.undecided('RegionConstructor.__init__ has {} parameters, expected 7'.format(len(ip)))
+        return
+    p_res, p_func, p_dim, p_eps = ip[0], ip[1], ip[2], ip[3]
+    # (c) build: the line-search calls
+    calls = ctx.calls(bd, 'line_search(*_)')
+    if len(calls) < 2:
+        raise AnchorMissing('RegionConstructor.build: expected two line_search calls')
+    lsp = ls.params
+    ls_mutates_start = any(
+        (isinstance(n, ast.AugAssign) and isinstance(n.target, ast.Name) and
+         n.target.id == lsp[1]) or
+        (isinstance(n, (ast.Assign, ast.AugAssign)) and any(
+            isinstance(t_, ast.Subscript) and isinstance(t_.value, ast.Name) and
+            t_.value.id == lsp[1]
+            for t_ in (n.targets if isinstance(n, ast.Assign) else [n.target])))
+        for n in own_nodes(ls.node))
+    for c in calls:
+        b = bind_args(c, ls, skip_self=False)
+        if b is None:
+            ctx.undecided('line_search call with * / ** arguments at line {}'.format(c.lineno))
+            continue
+        side = 'left' if isinstance(getattr(c, '_parent', None), ast.UnaryOp) else 'right'
+        want = {lsp[0]: p_func, lsp[3]: p_eps}
+        for q in lsp[4:]:
+            want[q] = q       # K, eta, rep_lim travel under their own names
+        for q, p in want.items():
+            a = b.get(q)
+            if a is None:
+                ctx.bad(bd, '{} search: {} given'.format(side, q),
+                        'line_search is called without `{}`: its default replaces the value the '
+                        'user gave'.format(q), fn=bd, node=c)
+                continue
+            t = exb.term(a)
+            okk = p in field_of and t == ('attr', ('param', 'self'), field_of[p])
+            ctx.check(okk, bd, '{} search: {} is the constructor\'s {}'.format(side, q, p),
+                      'self.{}'.format(field_of.get(p)),
+                      'line_search receives `{}` as `{}`, not the constructor\'s `{}`'.format(
+                          src(a)[:40], q, p), fn=bd, node=c)
+        a = b.get(lsp[1])
+        t = exb.term(a) if a is not None else None
+        from_opt = t is not None and p_res in field_of and contains(
+            t, 'self.{}.x_min'.format(field_of[p_res]))
+        fresh = isinstance(a, ast.Call) and callee_name(a) == 'copy'
+        okk = from_opt and (fresh or not ls_mutates_start)
+        ctx.check(bool(okk), bd, '{} search starts from the optimum'.format(side),
+                  'theta_0.copy()' if fresh else 'theta_0 (line_search works on its own copy)',
+                  'the line search does not start from the optimum' if not from_opt else
+                  'the line search advances its start point in place and is not given a fresh '
+                  'copy of the optimum: the second search starts where the first one ended',
+                  fn=bd, node=c)
+    # (a) call sites of the constructor
+    n_sites = 0
+    for fn in ctx.repo.all_functions():
+        if fn.module.name != ROMC:
+            continue
+        for c in ctx.calls(fn, 'RegionConstructor(*_)'):
+            b = bind_args(c, init)
+            if b is None:
+                ctx.undecided('RegionConstructor call with * / ** arguments in ' + fn.qname)
+                continue
+            n_sites += 1
+            ex = ctx.ex(fn)
+            keys = ip[3:]
+            for p in keys:
+                a = b.get(p)
+                if a is None:
+                    ctx.bad(fn, p + ' handed on', 'build_region does not hand `{}` to the region '
+                            'constructor'.format(p), fn=fn, node=c)
+                    continue
+                t = ex.term(a)
+                own = contains(t, "kwargs['{}']".format(p)) or t == ('param', p)
+                other = [o for o in keys if o != p and (
+                    contains(t, "kwargs['{}']".format(o)) or t == ('param', o))]
+                ctx.check(own and not other, fn, p + ' handed on under its own name',
+                          "{}=kwargs['{}']".format(p, p),
+                          'the constructor\'s `{}` is `{}`: not the user\'s `{}`{}'.format(
+                              p, src(a)[:40], p, ' but `{}`'.format(other[0]) if other else ''),
+                          fn=fn, node=c)
+            a = b.get(p_func)
+            t = ex.term(a) if a is not None else None
+            okk = t is not None and (contains(t, 'self.objective') or contains(t, 'self.surrogate'))
+            ctx.check(bool(okk), fn, 'searched function is the problem\'s distance',
+                      'self.surrogate / self.objective',
+                      'the region is not measured on the problem\'s own distance function',
+                      fn=fn, node=c)
+            a = b.get(p_res)
+            okk = a is not None and ex.term(a) == pattern_term('self.result')
+            ctx.check(bool(okk), fn, 'optimum is the problem\'s result', 'self.result',
+                      'the region is not built around the problem\'s own optimisation result',
+                      fn=fn, node=c)
+    if n_sites == 0:
+        raise AnchorMissing('no call of RegionConstructor in the ROMC module')
+    # (d) the entry point: thresholds default to the filtering threshold only when missing, and
+    #     the region arguments are the ones handed to the box builder
+    er = ctx.fn(ROMC + ':ROMC.estimate_regions')
+    exe = ctx.ex(er)
+    pf = ('param', 'eps_filter')
+    for key in ('eps_region', 'eps_cutoff'):
+        pk = ('param', key)
+        sts = [s for s in own_nodes(er.node) if isinstance(s, ast.Assign) and
+               len(s.targets) == 1 and isinstance(s.targets[0], ast.Subscript) and
+               isinstance(s.targets[0].slice, ast.Constant) and s.targets[0].slice.value == key]
+        if not sts:
+            raise AnchorMissing('estimate_regions does not record ' + key)
+        for s in sts:
+            v = exe.term(s.value)
+            alts = set(v[1]) if v[0] == 'phi' else {v}
+            ctx.check(pk in alts and alts <= {pk, pf}, er, key + ' recorded',
+                      '{0} (or eps_filter when {0} is None)'.format(key),
+                      '`{}` stores {} as {}'.format(src(s)[:50], show(v), key), fn=er, node=s)
+        dfl = [s for s in own_nodes(er.node) if isinstance(s, ast.Assign) and
+               len(s.targets) == 1 and isinstance(s.targets[0], ast.Name) and
+               s.targets[0].id == key]
+        for s in dfl:
+            g = [(t, p) for (t, p, _) in ctx.guards(er, s)]
+            okk = (('cmp', 'is', pk, ('const', None)), True) in g and exe.term(s.value) == pf
+            ctx.check(okk, er, key + ' defaults to the filtering threshold only when missing',
+                      'if {0} is None: {0} = eps_filter'.format(key),
+                      '`{}` replaces a threshold the user gave'.format(src(s)[:50]), fn=er, node=s)
+    bc = ctx.calls(er, name='_build_boxes')
+    okk = bool(bc) and all(
+        any(k.arg is None and (('param', 'region_args') in (
+            exe.term(k.value)[1] if exe.term(k.value)[0] == 'phi' else (exe.term(k.value),)))
+            for k in c.keywords) for c in bc)
+    ctx.check(okk, er, 'region arguments reach the box builder', '_build_boxes(**region_args)',
+              'the box builder is not called with the region arguments', fn=er,
+              node=bc[0] if bc else er.node)
